@@ -559,8 +559,54 @@ class Inliner:
         self.drop_absorbed()
         self.fold_getattr()
         self.unroll_literal_loops()
+        if self.notes:
+            self.split_tuple_assigns()
         ast.fix_missing_locations(self.tree)
         return self.tree
+
+    def split_tuple_assigns(self):
+        """``a, b = X, Y`` -> ``a = X; b = Y`` in functions that received
+        inlined code, when no right-hand side reads a target (the values are
+        then the same in both orders of binding)."""
+        touched = {n.split(':')[0].split('.')[-1] for n in self.notes
+                   if ':' in n}
+        for f in ast.walk(self.tree):
+            if not (isinstance(f, ast.FunctionDef) and f.name in touched):
+                continue
+            for x in ast.walk(f):
+                for fld in ('body', 'orelse', 'finalbody'):
+                    blk = getattr(x, fld, None)
+                    if not (isinstance(blk, list) and blk and isinstance(
+                            blk[0], ast.stmt)):
+                        continue
+                    i = 0
+                    while i < len(blk):
+                        st = blk[i]
+                        if isinstance(st, ast.Assign) and len(
+                                st.targets) == 1 and isinstance(
+                                    st.targets[0], ast.Tuple) and isinstance(
+                                        st.value, ast.Tuple) and len(
+                                            st.targets[0].elts) == len(
+                                                st.value.elts) and all(
+                                                    isinstance(t, ast.Name)
+                                                    for t in
+                                                    st.targets[0].elts):
+                            tn = {t.id for t in st.targets[0].elts}
+                            reads = {y.id for v in st.value.elts
+                                     for y in ast.walk(v)
+                                     if isinstance(y, ast.Name)}
+                            if not (tn & reads) and len(tn) == len(
+                                    st.targets[0].elts):
+                                new = []
+                                for t, v in zip(st.targets[0].elts,
+                                                st.value.elts):
+                                    a = ast.Assign(targets=[t], value=v)
+                                    ast.copy_location(a, st)
+                                    new.append(a)
+                                blk[i:i + 1] = new
+                                i += len(new)
+                                continue
+                        i += 1
 
     def drop_absorbed(self):
         """A new helper that was inlined and is referenced nowhere else is
@@ -844,8 +890,87 @@ class _NoInline(Exception):
     pass
 
 
+def desugar_struct_consts(tree):
+    """Module-level ``H = struct.Struct(<literal>)`` (bound once):
+    ``H.pack(..)`` -> ``struct.pack(fmt, ..)``, likewise unpack/unpack_from/
+    pack_into/iter_unpack, ``H.size`` -> the integer, ``H.format`` -> the
+    literal.  Pure notation: the compiled format is the same object."""
+    import struct as _struct
+    consts = {}
+    counts = {}
+    for st in tree.body:
+        tgts = []
+        if isinstance(st, ast.Assign):
+            tgts = [t for t in st.targets if isinstance(t, ast.Name)]
+        elif isinstance(st, ast.AnnAssign) and isinstance(
+                st.target, ast.Name):
+            tgts = [st.target]
+        for t in tgts:
+            counts[t.id] = counts.get(t.id, 0) + 1
+            v = st.value
+            if isinstance(v, ast.Call) and ast.unparse(v.func) in (
+                    'struct.Struct', 'Struct') and len(
+                        v.args) == 1 and isinstance(
+                            v.args[0], ast.Constant) and isinstance(
+                                v.args[0].value, (str, bytes)):
+                consts[t.id] = v.args[0].value
+    for x in ast.walk(tree):
+        if isinstance(x, (ast.FunctionDef, ast.Lambda)):
+            # a local of the same name shadows the constant
+            for y in ast.walk(x):
+                if isinstance(y, ast.Name) and isinstance(
+                        y.ctx, ast.Store) and y.id in consts:
+                    counts[y.id] = counts.get(y.id, 0) + 1
+    consts = {k: v for k, v in consts.items() if counts.get(k) == 1}
+    if not consts:
+        return 0
+    n = 0
+    for x in ast.walk(tree):
+        if isinstance(x, ast.Call) and isinstance(
+                x.func, ast.Attribute) and isinstance(
+                    x.func.value, ast.Name) and x.func.value.id in consts \
+                and x.func.attr in ('pack', 'unpack', 'unpack_from',
+                                    'pack_into', 'iter_unpack'):
+            fmt = consts[x.func.value.id]
+            x.func.value = ast.copy_location(
+                ast.Name(id='struct', ctx=ast.Load()), x.func.value)
+            x.args.insert(0, ast.copy_location(ast.Constant(value=fmt), x))
+            n += 1
+    for x in ast.walk(tree):
+        for fld, val in list(ast.iter_fields(x)):
+            vals = val if isinstance(val, list) else [val]
+            for k, y in enumerate(vals):
+                if isinstance(y, ast.Attribute) and isinstance(
+                        y.value, ast.Name) and y.value.id in consts and \
+                        isinstance(y.ctx, ast.Load) and y.attr in (
+                            'size', 'format'):
+                    fmt = consts[y.value.id]
+                    try:
+                        new = ast.Constant(
+                            value=_struct.calcsize(fmt)
+                            if y.attr == 'size' else fmt)
+                    except _struct.error:
+                        continue
+                    ast.copy_location(new, y)
+                    if isinstance(val, list):
+                        val[k] = new
+                    else:
+                        setattr(x, fld, new)
+                    n += 1
+    return n
+
+
 def inline_new_helpers(tree, modname):
+    notes0 = []
+    try:
+        k = desugar_struct_consts(tree)
+        if k:
+            notes0.append(f'{k} use(s) of struct.Struct constants written '
+                          'as struct.pack/unpack with the literal format')
+    except RecursionError:
+        pass
     inl = Inliner(tree, modname)
+    inl.notes.extend(notes0)
     try:
         return inl.run(), inl.notes
     except RecursionError:
